@@ -72,7 +72,11 @@ class Rec:
             self.ok = False
             if len(self.msgs) < 5:
                 self.msgs.append(msg if isinstance(msg, str) else str(msg))
-            if fkey is not None and self.fkey is None:
+            # a case is attributed to a known finding only if EVERY failing assertion carries that
+            # finding's key; one failure without a key (or with another key) poisons the attribution
+            if fkey is None or (self.fkey is not None and self.fkey != fkey):
+                self.fkey = False
+            elif self.fkey is None:
                 self.fkey = fkey
         return bool(cond)
 
@@ -156,6 +160,7 @@ def run_one(mod, case):
             rec = out
     except Exception as exc:  # noqa: BLE001
         rec.ok = False
+        rec.fkey = False
         tb = traceback.format_exc(limit=6)
         rec.msgs.append("exception escaped: %r\n%s" % (exc, tb))
     return rec
